@@ -612,7 +612,7 @@ func (ex *Exec) convert(st *State, site ssa.Instruction, x Value, from, to types
 			})
 		case *Term:
 			if !xv.IsConst() {
-				panic(unsupported("symbolic integer to float conversion at " + ex.pos(site)))
+				return opaqueFloat
 			}
 			_, fsigned, _ := intWidth(from)
 			if fsigned {
